@@ -43,6 +43,13 @@ def w_tdmd(ctx, rng, idx):
         Z = rng.standard_normal((N, r)) @ rng.standard_normal((r, m + 1))
         thr = 1e-10
         label = 'rank_deficient'
+    if rng.random() < 0.3:  # complex snapshots (wave functions, Fourier-transformed fields): same construction with complex factors
+        if label == 'noisy':
+            Z = Z + 1j * rng.standard_normal(Z.shape)
+        else:
+            r_ = Z.shape[0]
+            Z = (rng.standard_normal((N, N)) + 1j * rng.standard_normal((N, N))) @ Z * (1.0 / np.sqrt(N)) if label == 'rank_deficient' else Z * np.exp(1j * rng.uniform(0, 6.28, size=(N, 1)))
+        label += '_complex'
     X, Y = Z[:, :-1], Z[:, 1:]
     if min(N, m) > 1 and thr == 0.0 and N < m:
         thr = 0.0
